@@ -1,6 +1,10 @@
 import H3.Model.Session
 import H3.Model.FrameStream
 import H3.Props.C16
+import H3.Props.C02
+import H3.Props.C04
+import H3.Lemmas.C19
+import H3.Lemmas.VarintSpec
 /-! # C19 — WebTransport streams stay attached to their session, bytes intact -/
 namespace H3.Props.C19
 open H3.Session H3.Varint H3.Gen.Consts
@@ -61,5 +65,208 @@ theorem C19_gated (enabled : Bool) (ty : Nat) :
 theorem C19_read_after_header (buffered later : List (List Nat)) :
     readAll buffered later = buffered.flatten ++ later.flatten := by
   simp [readAll]
+
+/-! ## The bytes after the header, for every chunking -/
+
+section bidi
+open H3.FS
+
+/-- **Bidirectional streams, any encoding of the header.**  `hdr` is any byte string the frame
+    decoder reads as the WebTransport header of session `sid` whatever follows it (the header
+    `open_bi` writes, `C19_bidi_header_decodes`; but also one whose varints the peer wrote in a
+    longer form than necessary).  The transport delivers `hdr ++ payload` cut in ANY way (`sc0`:
+    header and payload in one chunk, cuts inside either varint, `Pending` anywhere).  `poll_next`
+    is polled until it answers the WebTransport frame — any configuration of the `FrameStream`
+    model in which exactly the token `frame (webTransport x)` has been handed out.  Then the frame
+    carries the session id of the header, the stream is in raw mode (`remaining_data =
+    usize::MAX`), and the bytes still buffered followed by the bytes the transport has still to
+    deliver are exactly the payload: nothing of it was consumed with the header, nothing of the
+    header is left (this is what `FrameStream::into_inner()` hands to the WebTransport stream). -/
+theorem C19_payload_after_any_header (sid : Nat) (hdr payload : List Nat)
+    (hdec : ∀ p, H3.Frame.decode (hdr ++ p) = .frame (.webTransport sid) hdr.length)
+    (hlen : payload.length < 2^64) (sc0 : List Ev) (hsc : ScriptOK sc0)
+    (hbytes : evBytes sc0 = hdr ++ payload)
+    {x : Nat} {s : FS.St} {script : List Ev}
+    (h : Reach frameDec sc0 [FS.Tok.frame (.webTransport x)] s script) :
+    x = sid ∧ s.remaining = USIZE_MAX ∧ s.flat ++ evBytes script = payload := by
+  obtain ⟨taken, hsc0, hI⟩ := H3.Props.C02.C02_chunking_independent frameDec frameDec_laws sc0 hsc h
+  obtain ⟨consumed, hseen, hrun⟩ := hI.split
+  have hdec' : ∀ p, frameDec.dec (hdr ++ p) = .frame (.webTransport sid) hdr.length := by
+    intro p
+    show liftRes (H3.Frame.decode (hdr ++ p)) = _
+    rw [hdec p]
+    rfl
+  have hall : consumed ++ (s.flat ++ evBytes script) = hdr ++ payload := by
+    rw [← hbytes, hsc0, evBytes_append, hseen, List.append_assoc]
+  have hraw : payload.length ≤ (frameDec.kind (.webTransport sid)).rem := by
+    show payload.length ≤ 2^64 - 1
+    omega
+  obtain ⟨hc, hx⟩ := run_raw_header_prefix frameDec frameDec_laws hdr payload consumed
+    (s.flat ++ evBytes script) (.webTransport sid) (.webTransport x) hdec' hraw hall _ hrun
+  have hx' : x = sid := by simpa using hx
+  subst hc
+  refine ⟨hx', ?_, List.append_cancel_left hall⟩
+  have hd0 := hdec' []
+  rw [List.append_nil] at hd0
+  have hr := run_of_pos frameDec frameDec_laws consumed consumed.length (by rw [hd0]; rfl)
+  rw [hd0] at hr
+  simp only [DecRes.fed, List.drop_length, run] at hr
+  rw [hr] at hrun
+  simp only [Prod.mk.injEq] at hrun
+  exact (PSt.ofRem_inj hrun.1).symm
+
+/-- **Bidirectional streams.**  The same for the header h3 itself writes for session `sid`
+    (`bidiHeader sid` = varint 0x41, varint `sid`), for every session id incl. multi-byte ones:
+    for every cutting of `bidiHeader sid ++ payload`, once `poll_next` has answered the
+    WebTransport frame, the frame carries `sid` and buffer ++ future = `payload`. -/
+theorem C19_payload_after_header (sid : Nat) (hsid : sid < 2^62) (payload : List Nat)
+    (hlen : payload.length < 2^64) (sc0 : List Ev) (hsc : ScriptOK sc0)
+    (hbytes : evBytes sc0 = bidiHeader sid ++ payload)
+    {x : Nat} {s : FS.St} {script : List Ev}
+    (h : Reach frameDec sc0 [FS.Tok.frame (.webTransport x)] s script) :
+    x = sid ∧ s.remaining = USIZE_MAX ∧ s.flat ++ evBytes script = payload :=
+  C19_payload_after_any_header sid (bidiHeader sid) payload (C19_bidi_header_decodes sid hsid)
+    hlen sc0 hsc hbytes h
+
+/-- ... hence what a reader of the stream obtains after `into_inner()` — the buffered chunks first,
+    then the chunks the transport delivers later (`readAll`) — is exactly the payload. -/
+theorem C19_bidi_reader_obtains_payload (sid : Nat) (hsid : sid < 2^62) (payload : List Nat)
+    (hlen : payload.length < 2^64) (sc0 : List Ev) (hsc : ScriptOK sc0)
+    (hbytes : evBytes sc0 = bidiHeader sid ++ payload)
+    {x : Nat} {s : FS.St} {script : List Ev}
+    (h : Reach frameDec sc0 [FS.Tok.frame (.webTransport x)] s script) :
+    readAll s.buf (evChunks script) = payload := by
+  rw [C19_read_after_header, evChunks_flatten]
+  exact (C19_payload_after_header sid hsid payload hlen sc0 hsc hbytes h).2.2
+
+/-! non-vacuity: session 256 (`40 41 | 41 00`), payload `aa bb cc`, three cuttings of the same
+    seven bytes: all in one chunk; cut inside the type varint, inside the id varint and inside the
+    payload, with a `Pending` in between (three `poll_next` calls); header alone, FIN behind the
+    payload. -/
+example : bidiHeader 256 ++ [0xaa, 0xbb, 0xcc] = [0x40, 0x41, 0x41, 0x00, 0xaa, 0xbb, 0xcc] := by decide
+
+example : Reach frameDec [.chunk [0x40, 0x41, 0x41, 0x00, 0xaa, 0xbb, 0xcc]]
+    [FS.Tok.frame (.webTransport 256)] { buf := [[0xaa, 0xbb, 0xcc]], remaining := USIZE_MAX } [] :=
+  Reach.next Reach.init (by decide +kernel :
+    pollNext frameDec {} [.chunk [0x40, 0x41, 0x41, 0x00, 0xaa, 0xbb, 0xcc]] =
+      (.frame (.webTransport 256), { buf := [[0xaa, 0xbb, 0xcc]], remaining := USIZE_MAX }, [])) rfl
+
+example : readAll [[0xaa, 0xbb, 0xcc]] (evChunks []) = [0xaa, 0xbb, 0xcc] :=
+  C19_bidi_reader_obtains_payload 256 (by decide) [0xaa, 0xbb, 0xcc] (by decide)
+    [.chunk [0x40, 0x41, 0x41, 0x00, 0xaa, 0xbb, 0xcc]]
+    (by intro b hb; simp at hb; subst hb; simp) (by decide)
+    (x := 256) (s := { buf := [[0xaa, 0xbb, 0xcc]], remaining := USIZE_MAX }) (script := [])
+    (Reach.next Reach.init (by decide +kernel :
+      pollNext frameDec {} [.chunk [0x40, 0x41, 0x41, 0x00, 0xaa, 0xbb, 0xcc]] =
+        (.frame (.webTransport 256), { buf := [[0xaa, 0xbb, 0xcc]], remaining := USIZE_MAX }, [])) rfl)
+
+/-- a header whose session id the peer wrote in a longer form than necessary (`40 04` for 4) -/
+theorem long_header_decodes (p : List Nat) :
+    H3.Frame.decode ([0x40, 0x41, 0x40, 0x04] ++ p) =
+      .frame (.webTransport 4) ([0x40, 0x41, 0x40, 0x04] : List Nat).length := by
+  unfold H3.Frame.decode
+  simp only [List.cons_append, List.nil_append]
+  rw [decode2 _ _ _ (by decide)]
+  simp only [FRAME_WEBTRANSPORT_BI_STREAM]
+  rw [if_pos (by decide), decode2 _ _ _ (by decide)]
+  simp
+  omega
+
+example : (4 = 4 ∧ USIZE_MAX = USIZE_MAX ∧ [] ++ evBytes [.pend, .chunk [0xaa], .fin] = [0xaa]) :=
+  C19_payload_after_any_header 4 [0x40, 0x41, 0x40, 0x04] [0xaa] long_header_decodes (by decide)
+    [.chunk [0x40, 0x41, 0x40], .chunk [0x04], .pend, .chunk [0xaa], .fin]
+    (by intro b hb; simp at hb; rcases hb with rfl | rfl | rfl <;> simp) (by decide)
+    (x := 4) (s := { buf := [], remaining := USIZE_MAX }) (script := [.pend, .chunk [0xaa], .fin])
+    (Reach.next Reach.init (by decide +kernel :
+      pollNext frameDec {} [.chunk [0x40, 0x41, 0x40], .chunk [0x04], .pend, .chunk [0xaa], .fin] =
+        (.frame (.webTransport 4), { buf := [], remaining := USIZE_MAX }, [.pend, .chunk [0xaa], .fin])) rfl)
+
+def cut₂ : List Ev := [.chunk [0x40], .pend, .chunk [0x41, 0x41], .pend, .chunk [0x00, 0xaa], .chunk [0xbb, 0xcc], .fin]
+
+theorem reach_cut₂ : Reach frameDec cut₂ [FS.Tok.frame (.webTransport 256)]
+    { buf := [[0xaa]], remaining := USIZE_MAX } [.chunk [0xbb, 0xcc], .fin] :=
+  show Reach frameDec cut₂ ([] ++ Out.toks (.pending : FOut) ++ Out.toks (.pending : FOut) ++
+      Out.toks (.frame (.webTransport 256) : FOut)) _ _ from
+  Reach.next (o := .frame (.webTransport 256))
+    (Reach.next (o := .pending)
+      (Reach.next (o := .pending) Reach.init
+        (by decide +kernel : pollNext frameDec {} cut₂ =
+          (.pending, { buf := [[0x40]], expected := some 2 },
+            [.chunk [0x41, 0x41], .pend, .chunk [0x00, 0xaa], .chunk [0xbb, 0xcc], .fin])) rfl)
+      (by decide +kernel : pollNext frameDec { buf := [[0x40]], expected := some 2 }
+          [.chunk [0x41, 0x41], .pend, .chunk [0x00, 0xaa], .chunk [0xbb, 0xcc], .fin] =
+        (.pending, { buf := [[0x40], [0x41, 0x41]], expected := some 1 },
+          [.chunk [0x00, 0xaa], .chunk [0xbb, 0xcc], .fin])) rfl)
+    (by decide +kernel : pollNext frameDec { buf := [[0x40], [0x41, 0x41]], expected := some 1 }
+        [.chunk [0x00, 0xaa], .chunk [0xbb, 0xcc], .fin] =
+      (.frame (.webTransport 256), { buf := [[0xaa]], remaining := USIZE_MAX }, [.chunk [0xbb, 0xcc], .fin])) rfl
+
+example : (256 = 256 ∧ (USIZE_MAX = USIZE_MAX) ∧ [0xaa] ++ evBytes [.chunk [0xbb, 0xcc], .fin] = [0xaa, 0xbb, 0xcc]) :=
+  C19_payload_after_header 256 (by decide) [0xaa, 0xbb, 0xcc] (by decide) cut₂
+    (by intro b hb; simp [cut₂] at hb; rcases hb with rfl | rfl | rfl | rfl <;> simp) (by decide) reach_cut₂
+
+example : readAll [[0xaa]] (evChunks [.chunk [0xbb, 0xcc], .fin]) = [0xaa, 0xbb, 0xcc] :=
+  C19_bidi_reader_obtains_payload 256 (by decide) [0xaa, 0xbb, 0xcc] (by decide) cut₂
+    (by intro b hb; simp [cut₂] at hb; rcases hb with rfl | rfl | rfl | rfl <;> simp) (by decide) reach_cut₂
+
+end bidi
+
+section uni
+open H3.UniAccept H3.Lemmas.C04
+open H3.Spec.ControlRules (header)
+
+/-- **Unidirectional streams.**  The peer opens a stream with the header for session `sid`
+    (stream type 0x54, then the session id) followed by `payload`; for every script carrying
+    these bytes before the end of the stream (ANY cutting, `Pending` anywhere, FIN or RESET behind
+    the payload or still open) `poll_type`, polled until it is ready, resolves the stream: the type
+    is the WebTransport stream type, the id attached is exactly `sid`, and the bytes still buffered
+    followed by the bytes still to come are exactly the payload. -/
+theorem C19_uni_payload_after_header (sid : Nat) (hsid : sid < 2^62) (payload : List Nat)
+    (sc : List UniAccept.Ev) (hwf : ScriptWF sc) (hbytes : bytesOf sc = uniHeader sid ++ payload) :
+    ∃ s r, resolve (sc.length + 1) {} sc = .resolved s r ∧
+      s.ty = some 0x54 ∧ s.id = some sid ∧ s.buf ++ future s r = payload := by
+  have hres := H3.Props.C04.C04_type_resolution sc hwf
+  have hh : header (bytesOf sc) = .complete 0x54 (some sid) payload := by
+    rw [hbytes]
+    unfold header uniHeader
+    rw [List.append_assoc, rfcDecode_encode _ (by decide)]
+    simp only [STREAM_WEBTRANSPORT_UNI]
+    simp only [show Spec.ControlRules.hasId 84 = true by decide, if_true, rfcDecode_encode sid hsid]
+  rw [hh] at hres
+  cases hr : resolve (sc.length + 1) {} sc with
+  | resolved s r =>
+    rw [hr] at hres
+    exact ⟨s, r, rfl, hres⟩
+  | dropped => rw [hr] at hres; exact hres.elim
+  | internal => rw [hr] at hres; exact hres.elim
+  | waiting s => rw [hr] at hres; exact hres.elim
+
+/-- ... hence a reader of the resolved stream — the buffered remainder first, then the chunks the
+    transport delivers before the stream ends (`readAll`) — obtains exactly the payload. -/
+theorem C19_uni_reader_obtains_payload (sid : Nat) (hsid : sid < 2^62) (payload : List Nat)
+    (sc : List UniAccept.Ev) (hwf : ScriptWF sc) (hbytes : bytesOf sc = uniHeader sid ++ payload) :
+    ∃ s r, resolve (sc.length + 1) {} sc = .resolved s r ∧ s.id = some sid ∧
+      readAll [s.buf] (futureChunks s r) = payload := by
+  obtain ⟨s, r, h1, _, h3, h4⟩ := C19_uni_payload_after_header sid hsid payload sc hwf hbytes
+  refine ⟨s, r, h1, h3, ?_⟩
+  rw [C19_read_after_header, futureChunks_flatten]
+  simpa using h4
+
+/-! non-vacuity: session 65536 (`40 54 | 80 01 00 00`), payload `aa bb`: everything in one chunk
+    with FIN behind; cut inside the type varint and inside the id varint with `Pending` between -/
+example : uniHeader 65536 ++ [0xaa, 0xbb] = [0x40, 0x54, 0x80, 0x01, 0x00, 0x00, 0xaa, 0xbb] := by decide
+example : resolve 3 {} [.chunk [0x40, 0x54, 0x80, 0x01, 0x00, 0x00, 0xaa, 0xbb], .fin] =
+    .resolved { buf := [0xaa, 0xbb], ty := some 0x54, id := some 65536 } [.fin] := by decide +kernel
+example : resolve 8 {} [.chunk [0x40], .pend, .chunk [0x54, 0x80], .pend, .chunk [0x01, 0x00], .chunk [0x00, 0xaa],
+      .chunk [0xbb]] =
+    .resolved { buf := [0xaa], ty := some 0x54, id := some 65536 } [.chunk [0xbb]] := by decide +kernel
+example : ∃ s r, resolve 8 {} [.chunk [0x40], .pend, .chunk [0x54, 0x80], .pend, .chunk [0x01, 0x00],
+      .chunk [0x00, 0xaa], .chunk [0xbb]] = .resolved s r ∧ s.id = some 65536 ∧
+      readAll [s.buf] (futureChunks s r) = [0xaa, 0xbb] :=
+  C19_uni_reader_obtains_payload 65536 (by decide) [0xaa, 0xbb]
+    [.chunk [0x40], .pend, .chunk [0x54, 0x80], .pend, .chunk [0x01, 0x00], .chunk [0x00, 0xaa], .chunk [0xbb]]
+    (by intro b hb; simp at hb; rcases hb with rfl | rfl | rfl | rfl | rfl <;> simp [WF]) (by decide)
+
+end uni
 
 end H3.Props.C19
